@@ -3,10 +3,12 @@ package service
 import (
 	"cmp"
 	"context"
+	"fmt"
 	"log/slog"
 	"os"
 	"time"
 
+	"github.com/AdguardTeam/golibs/errors"
 	"github.com/AdguardTeam/golibs/logutil/slogutil"
 	"github.com/AdguardTeam/golibs/osutil"
 )
@@ -114,8 +116,7 @@ func (h *SignalHandler) shutdown(ctx context.Context) (status osutil.ExitCode) {
 
 	status = osutil.ExitCodeSuccess
 	for i := len(h.services) - 1; i >= 0; i-- {
-		s := h.services[i]
-		err := s.Shutdown(ctx)
+		err := h.shutdownService(ctx, h.services[i])
 		if err == nil {
 			continue
 		}
@@ -128,4 +129,22 @@ func (h *SignalHandler) shutdown(ctx context.Context) (status osutil.ExitCode) {
 	h.logger.InfoContext(ctx, "shut down", "status", status)
 
 	return status
+}
+
+// shutdownService shuts down a single service.  A panic in its Shutdown method
+// is logged and turned into an error, so that it is reported as a failure and
+// doesn't prevent the rest of the services from being shut down.
+func (h *SignalHandler) shutdownService(ctx context.Context, s Interface) (err error) {
+	defer func() {
+		v := recover()
+		if v == nil {
+			return
+		}
+
+		slogutil.PrintRecovered(ctx, h.logger, v)
+
+		err = fmt.Errorf("panic: %w", errors.FromRecovered(v))
+	}()
+
+	return s.Shutdown(ctx)
 }
